@@ -41,7 +41,8 @@ Failures(T, i, g2) ==
       pre  == ObjsAt(T, i - 1)
       post == ObjsAt(T, i)
       want == Do(op, pre)
-  IN   Fail("Outcome_" \o e.op, e.o, e.outcome = Outcome(op, pre))
+  IN   \* which exception type is raised is not part of the property: only whether the call is refused
+       Fail("Outcome_" \o e.op, e.o, (e.outcome = "ok") <=> (Outcome(op, pre) = "ok"))
   \cup Fail("ObjectCount", e.o, Len(post) = Len(want))
   \cup (IF Len(post) = Len(want)
         THEN UNION { Fail("Refine_" \o e.op, j, post[j] = want[j]) : j \in 1..Len(post) }
